@@ -186,25 +186,53 @@ func runC15(c *eng.Ctx, tier string) {
 			}
 		}
 		nReg := 0
-		for _, m := range eng.MapOps(lw) {
+		// the handle field of a watcher (the embedded Secret on the pinned tree)
+		secField := structFieldByType(p, setecPkg, "watcher", func(t types.Type) bool { return eng.IsNamed(t, setecPkg, "Secret") })
+		if secField == "" {
+			secField = "Secret"
+		}
+		// (the registration may live in a helper lookupWatcher calls from one place)
+		var regs []eng.MapOp
+		seenFn := map[*ssa.Function]bool{}
+		eng.InstrsDeep(lw, func(g *ssa.Function, _ ssa.Instruction) {
+			if seenFn[g] {
+				return
+			}
+			seenFn[g] = true
+			if g != lw && (g.Parent() != nil || eng.UniqueCallSite(g) == nil || eng.UniqueCallSite(g).Parent() != lw) {
+				return
+			}
+			regs = append(regs, eng.MapOps(g)...)
+		})
+		for _, m := range regs {
 			nm, isAct := activeMapOf(m.Map)
 			if !isAct || nm != "w" || m.Kind != "update" {
 				continue
 			}
 			nReg++
-			c.Check(eng.Origin(m.Key) == ssa.Value(nameP), "R-C15-3", lw, m.In.Pos(), eng.InstrStr(m.In)+" [name]", "registered under the looked-up name", "")
+			rf := m.In.Parent()
+			var site *ssa.Call
+			if rf != lw {
+				site, _ = eng.UniqueCallSite(rf).(*ssa.Call)
+			}
+			c.Check(eng.OriginX(m.Key) == eng.OriginX(nameP), "R-C15-3", rf, m.In.Pos(), eng.InstrStr(m.In)+" [name]", "registered under the looked-up name", "")
 			// appended value: append(w[name], watcher literal)
 			args, isApp := eng.BuiltinCall(instrOf(eng.Origin(m.Val)), "append")
 			okk := false
+			var elems []ssa.Value
 			if isApp {
 				pa := eng.Path{Blocks: []*ssa.BasicBlock{m.In.Block()}}
-				elems, _ := pa.SliceElems(args[1])
+				elems, _ = pa.SliceElems(args[1])
 				if len(elems) == 1 {
-					fields, _, okF := eng.LiteralFields(eng.Origin(elems[0]))
+					// (the literal may be built by a constructor helper)
+					fields, mapv, okF := eng.LiteralThroughHelper(elems[0])
 					if okF {
 						// the wrapped Secret comes only from handle creation for the same name
-						sec := fields["Secret"]
+						sec := fields[secField]
 						okk = sec != nil
+						if sec != nil {
+							sec = eng.OriginX(mapv(sec))
+						}
 						leaves, phis := eng.PhiLeaves(eng.Origin(sec))
 						if len(phis) == 0 {
 							leaves = []eng.PhiLeaf{{Val: sec}}
@@ -226,7 +254,7 @@ func runC15(c *eng.Ctx, tier string) {
 							}
 							hasName := false
 							for _, a := range target.Call.Args {
-								if eng.Origin(a) == ssa.Value(nameP) {
+								if eng.OriginX(a) == eng.OriginX(nameP) {
 									hasName = true
 								}
 							}
@@ -237,21 +265,36 @@ func runC15(c *eng.Ctx, tier string) {
 					}
 				}
 			}
-			c.Check(okk, "R-C15-3", lw, m.In.Pos(), eng.InstrStr(m.In)+" [handle]", "the registered watcher wraps the handle obtained for the same name", "")
+			c.Check(okk, "R-C15-3", rf, m.In.Pos(), eng.InstrStr(m.In)+" [handle]", "the registered watcher wraps the handle obtained for the same name", "")
 			// every caller gets a watcher of its own: what is returned with a nil
 			// error is the watcher registered by this very call (a shared one
 			// would have its single pending signal consumed by whoever asks first)
 			if isApp {
-				pa := eng.Path{Blocks: []*ssa.BasicBlock{m.In.Block()}}
-				elems, _ := pa.SliceElems(args[1])
+				isReg := func(v ssa.Value) bool {
+					return len(elems) == 1 && (eng.Origin(v) == eng.Origin(elems[0]) || eng.Same(v, elems[0]))
+				}
+				if site != nil {
+					// the helper hands the registered watcher back ...
+					for _, r := range eng.Returns(rf) {
+						rv := eng.RetVals(r)
+						c.Check(len(rv) > 0 && isReg(rv[0]) && eng.InstrDominates(m.In, r), "R-C15-3", rf, r.Pos(), "watcher returned by "+eng.FName(rf)+": "+eng.InstrStr(r), "the watcher it created and registered", "returns another watcher, or returns without registering")
+					}
+				}
 				ei := errResultIndex(lw)
 				for _, r := range eng.Returns(lw) {
 					rv := eng.RetVals(r)
 					if ei < 0 || !eng.IsNilConst(eng.Origin(rv[ei])) {
 						continue
 					}
-					same := len(elems) == 1 && (eng.Origin(rv[0]) == eng.Origin(elems[0]) || eng.Same(rv[0], elems[0]))
-					c.Check(same && eng.InstrDominates(m.In, r), "R-C15-3", lw, r.Pos(), "watcher returned: "+eng.ValStr(rv[0]), "the watcher created and registered by this call (one per caller)", "returns another watcher, or returns without registering")
+					same := false
+					if site == nil {
+						same = isReg(rv[0]) && eng.InstrDominates(m.In, r)
+					} else {
+						// ... and lookupWatcher returns what the helper handed back
+						hc, _ := eng.TupleCall(rv[0])
+						same = hc == site
+					}
+					c.Check(same, "R-C15-3", lw, r.Pos(), "watcher returned: "+eng.ValStr(rv[0]), "the watcher created and registered by this call (one per caller)", "returns another watcher, or returns without registering")
 				}
 			}
 		}
@@ -473,7 +516,6 @@ func c15Get(c *eng.Ctx) {
 		c.Check(okk, "R-C15-5", top, r.Pos(), eng.InstrStr(r), "Get returns the current value of the field, read after any replacement", "returns "+eng.ValStr(rv[0]))
 	}
 }
-
 
 // isBuilderType: func([]byte) (T, error), the value builder of an Updater.
 func isBuilderType(t types.Type) bool {
